@@ -14,6 +14,11 @@ type GenOpt struct {
 	ExtremeDur           bool   // sample durations may be anything up to 2^32-1 (run_index*delta exceeds 32 bits)
 	StsdEntries          int    // > 1: the sample entry is repeated so that description ids 1..StsdEntries are valid
 	VideoStsd, AudioStsd []byte // default: DefaultStsd()
+	// Opt-in extensions (no draw is made for them when they are off, so that the draw sequence of the other
+	// users of GenTracks does not change):
+	MinSamples    int  // per track, default 1
+	AllowZeroSize bool // samples may have size 0 (isolated ones, runs, a whole track of empty samples)
+	AllowZeroDur  bool // non-final samples may have duration 0 (isolated ones, runs before/at sync samples)
 }
 
 func (o GenOpt) withDefaults() GenOpt {
@@ -109,7 +114,11 @@ func GenTracks(t *rapid.T, opt GenOpt) []Track {
 			tr.Handler, tr.StsdRaw, tr.Width, tr.Height = "vide", opt.VideoStsd, 640, 360
 		}
 		tr.Timescale = rapid.SampledFrom(timescales).Draw(t, "timescale")
-		n := rapid.IntRange(1, opt.MaxSamples).Draw(t, "nSamples")
+		minN := 1
+		if opt.MinSamples > 1 && opt.MinSamples <= opt.MaxSamples {
+			minN = opt.MinSamples
+		}
+		n := rapid.IntRange(minN, opt.MaxSamples).Draw(t, "nSamples")
 		// sizes
 		sizes := make([]int, n)
 		switch rapid.IntRange(0, 3).Draw(t, "sizeMode") {
@@ -135,6 +144,9 @@ func GenTracks(t *rapid.T, opt GenOpt) []Track {
 			for i := range sizes {
 				sizes[i] = rapid.IntRange(1, 4).Draw(t, "size")
 			}
+		}
+		if opt.AllowZeroSize {
+			genZeroSizes(t, sizes)
 		}
 		// durations
 		var durs []uint32
@@ -227,6 +239,9 @@ func GenTracks(t *rapid.T, opt GenOpt) []Track {
 				sync[i] = true
 			}
 		}
+		if opt.AllowZeroDur {
+			genZeroDurs(t, durs, sync)
+		}
 		// sdtp
 		sdtp := make([]byte, n)
 		switch rapid.IntRange(0, 2).Draw(t, "sdtpMode") {
@@ -254,6 +269,80 @@ func GenTracks(t *rapid.T, opt GenOpt) []Track {
 		tracks[ti] = tr
 	}
 	return tracks
+}
+
+// genZeroSizes sets (one time out of three) some of the drawn sizes to 0: independent samples, one run,
+// or all of them (a track of empty samples, which cannot use the uniform stsz form: sample_size 0
+// means "sizes are in the table").
+func genZeroSizes(t *rapid.T, sizes []int) {
+	n := len(sizes)
+	switch rapid.IntRange(0, 8).Draw(t, "zeroSizeMode") {
+	case 0: // independent
+		for i := range sizes {
+			if rapid.IntRange(0, 3).Draw(t, "zeroSize") == 0 {
+				sizes[i] = 0
+			}
+		}
+	case 1: // one run
+		a := rapid.IntRange(0, n-1).Draw(t, "zeroSizeFrom")
+		b := rapid.IntRange(a, n-1).Draw(t, "zeroSizeTo")
+		for i := a; i <= b; i++ {
+			sizes[i] = 0
+		}
+	case 2: // first, last or all
+		switch rapid.IntRange(0, 2).Draw(t, "zeroSizeWhere") {
+		case 0:
+			sizes[0] = 0
+		case 1:
+			sizes[n-1] = 0
+		default:
+			for i := range sizes {
+				sizes[i] = 0
+			}
+		}
+	}
+}
+
+// genZeroDurs sets (one time out of two) the duration of some non-final samples to 0: independent
+// samples, a run that ends just before a sync sample, or a run that starts at a sync sample.
+func genZeroDurs(t *rapid.T, durs []uint32, sync []bool) {
+	n := len(durs)
+	if n < 2 {
+		return
+	}
+	var syncAt []int
+	for i, s := range sync {
+		if s && i > 0 {
+			syncAt = append(syncAt, i)
+		}
+	}
+	mode := rapid.IntRange(0, 5).Draw(t, "zeroDurMode")
+	if mode >= 3 {
+		return
+	}
+	if mode > 0 && len(syncAt) == 0 {
+		mode = 0
+	}
+	switch mode {
+	case 0:
+		for i := 0; i < n-1; i++ {
+			if rapid.IntRange(0, 4).Draw(t, "zeroDur") == 0 {
+				durs[i] = 0
+			}
+		}
+	case 1: // l samples before a sync sample: they and the sync sample start at the same time
+		at := rapid.SampledFrom(syncAt).Draw(t, "zeroDurSync")
+		l := rapid.IntRange(1, 3).Draw(t, "zeroDurLen")
+		for i := at - 1; i >= 0 && i >= at-l; i-- {
+			durs[i] = 0
+		}
+	default: // the sync sample and l-1 followers: the samples after it start at its start time
+		at := rapid.SampledFrom(syncAt).Draw(t, "zeroDurSync")
+		l := rapid.IntRange(1, 3).Draw(t, "zeroDurLen")
+		for i := at; i < n-1 && i < at+l; i++ {
+			durs[i] = 0
+		}
+	}
 }
 
 // GenChunking draws samples-per-chunk for n samples: one big chunk, one sample per chunk, a fixed
@@ -345,6 +434,70 @@ func GenTrackLayout(t *rapid.T, tr Track) TrackLayout {
 		}
 	}
 	return tl
+}
+
+// GenZeroRuns draws (opt-in: nothing in this package calls it) zero-count entries for the stts and ctts
+// tables of a track layout: (sample_count=0, value) pairs, which cover no sample and are therefore
+// without effect on the expansion of the table (ISO/IEC 14496-12 8.6.1.2/8.6.1.3 do not exclude them).
+func GenZeroRuns(t *rapid.T, tr Track, tl *TrackLayout) {
+	durs := make([]uint32, len(tr.Samples))
+	ctos := make([]uint32, len(tr.Samples))
+	for i, s := range tr.Samples {
+		durs[i], ctos[i] = s.Dur, uint32(s.Cto)
+	}
+	draw := func(label string, nRuns int, vals []uint32) []ZeroRun {
+		k := rapid.IntRange(1, 3).Draw(t, label+"ZeroRuns")
+		out := make([]ZeroRun, 0, k)
+		for i := 0; i < k; i++ {
+			at := rapid.IntRange(0, nRuns).Draw(t, label+"ZeroRunAt")
+			if rapid.IntRange(0, 3).Draw(t, label+"ZeroRunEdge") == 0 {
+				at = rapid.SampledFrom([]int{0, nRuns}).Draw(t, label+"ZeroRunEdgeAt")
+			}
+			out = append(out, ZeroRun{At: at, Value: rapid.SampledFrom(vals).Draw(t, label+"ZeroRunValue")})
+		}
+		// in table order
+		for i := 1; i < len(out); i++ {
+			for j := i; j > 0 && out[j].At < out[j-1].At; j-- {
+				out[j], out[j-1] = out[j-1], out[j]
+			}
+		}
+		return out
+	}
+	if rapid.Bool().Draw(t, "sttsZeroRuns") {
+		vals := []uint32{0, 1, 1024, 0xffffffff, durs[0], durs[len(durs)-1]}
+		tl.SttsZero = draw("stts", len(RunLength(durs, tl.NoMerge)), vals)
+	}
+	if tl.CttsVersion >= 0 && rapid.Bool().Draw(t, "cttsZeroRuns") {
+		vals := []uint32{0, 1, 512, ctos[0], ctos[len(ctos)-1]}
+		if tl.CttsVersion == 1 {
+			vals = append(vals, 0xffffffff, 0x80000000)
+		}
+		tl.CttsZero = draw("ctts", len(RunLength(ctos, tl.NoMerge)), vals)
+	}
+}
+
+// GenSwapChunks (opt-in: nothing in this package calls it) exchanges, in the mdat order of the layout,
+// one or two pairs of chunks of the same track that no chunk of that track lies between, so that the
+// chunk offsets of the track are not increasing; it sets UnorderedChunks. Without a track of two chunks
+// nothing is changed.
+func GenSwapChunks(t *rapid.T, lay *ProgLayout) {
+	for round := rapid.IntRange(1, 2).Draw(t, "swapRounds"); round > 0; round-- {
+		// positions i whose successor in the same track exists: pairs (i, j)
+		last := map[int]int{}
+		var pairs [][2]int
+		for i, tc := range lay.ChunkOrder {
+			if p, ok := last[tc[0]]; ok {
+				pairs = append(pairs, [2]int{p, i})
+			}
+			last[tc[0]] = i
+		}
+		if len(pairs) == 0 {
+			return
+		}
+		p := rapid.SampledFrom(pairs).Draw(t, "swapPair")
+		lay.ChunkOrder[p[0]], lay.ChunkOrder[p[1]] = lay.ChunkOrder[p[1]], lay.ChunkOrder[p[0]]
+		lay.UnorderedChunks = true
+	}
 }
 
 // GenChunkOrder draws an interleaving of the chunks of all tracks that keeps each track's chunks in order.
